@@ -125,6 +125,8 @@ class RealH:
             if progen.fnv1a64(ks) % fh[0] == fh[1]:
                 raise progen.EXC[fh[2]](idx, 0, 1)
         b = nd.get('body', {'kind': 'prov'})
+        if b['kind'] == 'labels':
+            return b['v'][0]          # real-pool runs have no recurrent iterations: first invocation
         return progen.prov(nd['name'], kw) if b['kind'] == 'prov' else b['v']
 
     async def abody(self, idx, inst, kw):
